@@ -23,6 +23,11 @@ func NewTimer(d int64, f func()) *VTimer {
 }
 
 func (v *VTimer) Stop() bool {
+	// stopping a timer is a visible operation: the timer may fire just before it (found by the conformance corpus:
+	// without this point "AfterFunc; Stop" could never observe a fired timer)
+	if S != nil && !S.aborting {
+		Yield(nil, "Timer.Stop")
+	}
 	if v.t.started || v.t.stopped {
 		return false
 	}
